@@ -217,12 +217,19 @@ pub fn small_valid_msg() -> BoxedStrategy<MsgSpec> {
                 ],
                 any::<u8>(),
             ),
-            0..=4,
+            0..=40,
         ),
         prop_oneof![2 => Just(0usize), 3 => 1usize..=6],
         any::<u8>(),
     )
-        .prop_map(|(mtype, token, code, mid, opts, plen, pseed)| {
+        .prop_map(|(mtype, token, code, mid, mut opts, plen, pseed)| {
+            // mostly few options, sometimes a dozen, sometimes dozens
+            let keep = match pseed % 10 {
+                0 => 40,
+                1 => 12,
+                _ => 4,
+            };
+            opts.truncate(keep);
             let mut num = 0u32;
             let mut options = Vec::new();
             for (d, l, s) in opts {
